@@ -3,7 +3,7 @@ from __future__ import annotations
 
 import ast
 
-from .. import astu, flow, types
+from .. import evid, astu, flow, types
 from ..cfg import cfg_of
 from ..model import AnalysisError
 from ..report import key_of
@@ -27,12 +27,16 @@ def r1(R, repo):
     soft = [n for n in c.nodes if isinstance(n.stmt, ast.Assign) and astu.src(n.stmt.targets[0]) == 'attn_weights' and 'softmax' in astu.src(n.stmt.value)]
     R.require(len(tb) == 1 and len(add) == 1 and len(soft) >= 1, '%s: bias / softmax statements not found' % rel)
     if not where or not tm:
-      R.fail(key_of(f, 'mask applied before softmax'), f, 'dot_product_attention_weights no longer masks the logits')
+      anywhere = [x for x in ast.walk(f.node) if isinstance(x, ast.Call) and astu.call_tail(x) == 'where'] or evid.calls_deep(repo, f, lambda y: astu.call_tail(y) == 'where')
+      if anywhere:
+        R.unsure(key_of(f, 'mask applied before softmax'), f, 'the masking statement of dot_product_attention_weights was not recognised')
+      else:
+        R.fail(key_of(f, 'mask applied before softmax'), f, 'dot_product_attention_weights no longer masks the logits')
       continue
     w = where[0]
     args = [astu.src(a) for a in w.stmt.value.args]
     ok = args[:2] == ['mask', 'attn_weights'] and c.edge_guarded(w, tm[0], 'T') and all(c.dominated(s, tm) for s in soft) and all(s in c.reach([w]) for s in soft) and not any(w in c.reach([s]) for s in soft)
-    R.check(ok, key_of(f, 'where(mask, logits, big_neg) before softmax'), f, 'when a mask is given the logits must pass through where(mask, attn_weights, <most negative value>) before the softmax')
+    R.check(ok, key_of(f, 'where(mask, logits, big_neg) before softmax'), f, evidence=len(args) >= 2 and sorted(args[:2]) == ['attn_weights', 'mask'], msg_fail= 'when a mask is given the logits must pass through where(mask, attn_weights, <most negative value>) before the softmax')
     fill = types.single_def(f.node, args[2]) if len(args) > 2 and args[2].isidentifier() else None
     R.check(fill is not None and 'finfo' in astu.src(fill) and astu.src(fill).endswith('.min'), key_of(f, 'masked logits = finfo(dtype).min'), f, 'masked positions must be filled with the most negative finite value of the dtype')
     # the mask must be applied whether or not a bias is given, and after the bias
@@ -40,10 +44,10 @@ def r1(R, repo):
     cut_mask_false = [(tm[0], m, l) for m, l in c.succ[tm[0]] if l != 'T']
     with_both = c.reach([c.entry], avoid_edges=cut_bias_false + cut_mask_false)
     ok = w in with_both and w in c.reach(add) and add[0] not in c.reach([w])
-    R.check(ok, key_of(f, 'mask applied also when a bias is given, after the bias'), (f, w.stmt),
+    R.check(ok, key_of(f, 'mask applied also when a bias is given, after the bias'), (f, w.stmt), evidence=True, msg_fail=
             'with both `bias` and `mask` given the mask must still be applied (after the bias addition): an `elif mask` skips it, so masked / future positions receive weight')
     rets = [n for n in c.nodes if isinstance(n.stmt, ast.Return)]
-    R.check(len(rets) == 1 and astu.src(rets[0].stmt.value) == 'attn_weights' and all(c.dominated(rets[0], [s]) or True for s in soft) and c.must_pass(c.entry, rets[0], soft), key_of(f, 'returns the softmaxed weights'), f, 'the returned weights must have passed through the softmax')
+    R.judge(len(rets) == 1 and astu.src(rets[0].stmt.value) == 'attn_weights', len(rets) == 1 and c.must_pass(c.entry, rets[0], soft), key_of(f, 'returns the softmaxed weights'), f, 'the returned weights must have passed through the softmax')
 
 
 def _decode_block(repo, rel, qual, cache_expr):
@@ -66,20 +70,25 @@ def r2(R, repo):
     sk = [n for n in c.nodes if isinstance(n.stmt, ast.Assign) and astu.src(n.stmt.targets[0]) == ck]
     sv = [n for n in c.nodes if isinstance(n.stmt, ast.Assign) and astu.src(n.stmt.targets[0]) == cv]
     ok = len(inc) == 1 and len(sk) == 1 and len(sv) == 1 and c.dominated(inc[0], cur) and cur[0] not in c.reach(inc)
-    R.check(ok, key_of(f, 'index read before it is advanced; advanced exactly once'), f, 'the cache index must be read into cur_index before the single `+ 1` update')
+    any_store = [n for n in c.nodes if isinstance(n.stmt, (ast.Assign, ast.AugAssign)) and astu.src(n.stmt.targets[0] if isinstance(n.stmt, ast.Assign) else n.stmt.target) == idx]
+    if not any_store and sk and sv:
+      R.fail(key_of(f, 'index read before it is advanced; advanced exactly once'), f, 'the cache index `%s` is never advanced: every decode step would overwrite position 0' % idx)
+    else:
+      R.judge(len(inc) >= 1 and len(sk) == 1 and len(sv) == 1, ok, key_of(f, 'index read before it is advanced; advanced exactly once'), f, 'the cache index must be read into cur_index before the single `+ 1` update')
     if ok:
       ok2 = c.must_pass(cur[0], c.exit, inc, avoid_edges=c.exc_edges()) and c.must_pass(cur[0], c.exit, sk, avoid_edges=c.exc_edges()) and c.must_pass(cur[0], c.exit, sv, avoid_edges=c.exc_edges())
-      R.check(ok2, key_of(f, 'key, value and index all stored on every decode step'), f, 'every decode step must store the updated key cache, value cache and index')
+      R.check(ok2, key_of(f, 'key, value and index all stored on every decode step'), f, evidence=True, msg_fail= 'every decode step must store the updated key cache, value cache and index')
     upd = [n for n in c.nodes if isinstance(n.stmt, ast.Assign) and isinstance(n.stmt.value, ast.Call) and astu.call_name(n.stmt.value) == 'lax.dynamic_update_slice']
     ok = len(upd) == 2 and sorted(astu.src(u.stmt.value.args[0]) for u in upd) == sorted([ck, cv]) and all(astu.src(u.stmt.value.args[2]) == 'indices' for u in upd)
     ind = types.single_def(f.node, 'indices')
     ok = ok and ind is not None and 'cur_index' in astu.names_loaded(ind)
-    R.check(ok, key_of(f, 'new key/value written at cur_index'), f, 'the new key/value slices must be written into the caches at position cur_index')
+    R.judge(len(upd) == 2 and ind is not None, ok, key_of(f, 'new key/value written at cur_index'), f, 'the new key/value slices must be written into the caches at position cur_index')
     masks = [n for n in c.nodes if isinstance(n.stmt, ast.Assign) and astu.src(n.stmt.targets[0]) == 'mask' and isinstance(n.stmt.value, ast.Call) and astu.call_name(n.stmt.value) == 'combine_masks' and n in c.reach(cur)]
     ok = len(masks) == 1 and 'jnp.arange(max_length) <= cur_index' in astu.src(masks[0].stmt.value) and astu.src(masks[0].stmt.value.args[0]) == 'mask'
-    R.check(ok, key_of(f, 'mask combined with arange(max_length) <= cur_index'), f, 'the decode step must attend only to cached positions: combine_masks(mask, arange(max_length) <= cur_index) with the index read before the update')
+    cmps = [x for m_ in masks for x in ast.walk(m_.stmt.value) if isinstance(x, ast.Compare) and 'cur_index' in astu.names_loaded(x) and 'arange' in astu.src(x)]
+    R.judge(len(masks) == 1 and len(cmps) == 1 and astu.src(cmps[0].left) == 'jnp.arange(max_length)', ok, key_of(f, 'mask combined with arange(max_length) <= cur_index'), f, 'the decode step must attend only to cached positions: combine_masks(mask, arange(max_length) <= cur_index) with the index read before the update')
     shp = [n for n in c.nodes if isinstance(n.stmt, ast.Raise) and 'Autoregressive cache shape error' in astu.src(n.stmt)]
-    R.check(len(shp) == 1 and all(shp[0] not in c.reach([s]) for s in sk + sv + inc), key_of(f, 'shape check raises before anything is stored'), f, 'a query of the wrong shape must raise before the caches are touched')
+    R.judge(len(shp) == 1, len(shp) == 1 and all(shp[0] not in c.reach([s]) for s in sk + sv + inc), key_of(f, 'shape check raises before anything is stored'), f, 'a query of the wrong shape must raise before the caches are touched')
 
 
 @rule('C13.R3', 'K7', 4, 'with seq_lengths the returned carry is the carry at each sequence\'s last valid step')
@@ -88,7 +97,7 @@ def r3(R, repo):
     f = repo.func(rel, 'RNN.__call__')
     c = cfg_of(f)
     sl = types.single_def(f.node, 'slice_carry')
-    R.check(sl is not None and astu.src(sl) == 'seq_lengths is not None and return_carry', key_of(f, 'slice_carry = seq_lengths given and carry requested'), f, 'the per-step carries must be collected exactly when seq_lengths is given and the carry is returned')
+    evid.judge_expr(R, f, sl, ['seq_lengths is not None and return_carry', 'return_carry and seq_lengths is not None'], key_of(f, 'slice_carry = seq_lengths given and carry requested'), f, 'the per-step carries must be collected exactly when seq_lengths is given and the carry is returned', follow=False)
     sel = [n for n in c.nodes if isinstance(n.stmt, ast.Assign) and astu.src(n.stmt) == 'carry = _select_last_carry(carries, seq_lengths)']
     t = [n for n in c.nodes if n.kind == 'if' and astu.src(n.ast) == 'slice_carry' and n.stmt.body and any('_select_last_carry' in astu.src(s) for s in n.stmt.body)]
     rets = [n for n in c.nodes if isinstance(n.stmt, ast.Return) and astu.src(n.stmt.value) == '(carry, outputs)']
@@ -96,9 +105,13 @@ def r3(R, repo):
     if ok:
       cut = [(t[0], m, l) for m, l in c.succ[t[0]] if l != 'T']
       ok = c.must_pass(t[0], rets[0], sel, avoid_edges=cut)
-    R.check(ok, key_of(f, 'carry = _select_last_carry(carries, seq_lengths)'), f, 'with seq_lengths the returned carry must be selected from the per-step carries at the last valid step, not the scan\'s final carry')
+    sel_any = [x for x in astu.func_calls(f) if astu.call_name(x) == '_select_last_carry']
+    if not sel_any and not evid.calls_deep(repo, f, evid.call_named('_select_last_carry')) and len(t) == 0 and sl is not None:
+      R.fail(key_of(f, 'carry = _select_last_carry(carries, seq_lengths)'), f, 'RNN.__call__ no longer selects the carry at each sequence\'s last valid step (_select_last_carry is not called): with seq_lengths the carry after the padding steps is returned')
+    else:
+      R.judge(len(sel) == 1 and len(t) == 1 and len(rets) == 1, ok, key_of(f, 'carry = _select_last_carry(carries, seq_lengths)'), f,   'with seq_lengths the returned carry must be selected from the per-step carries at the last valid step, not the scan\'s final carry')
     g = repo.func(rel, '_select_last_carry')
-    R.check('last_idx = seq_lengths - 1' in astu.src(g.node) and 'x[last_idx, jnp.arange(x.shape[1])]' in astu.src(g.node), key_of(g, 'index seq_lengths - 1 per batch element'), g, '_select_last_carry must take, per batch element, the carry at index seq_lengths - 1')
+    evid.judge_stmts(R, g, ['last_idx = seq_lengths - 1'], key_of(g, 'index seq_lengths - 1 per batch element'), g, '_select_last_carry must take, per batch element, the carry at index seq_lengths - 1')
 
 
 @rule('C13.R4', 'K4', 6, 'reversal is applied within each valid length, before the scan and (keep_order) again after it, with the same arguments; Bidirectional treats both directions alike')
@@ -110,14 +123,14 @@ def r4(R, repo):
     R.require(len(flips) == 2, '%s RNN.__call__: two flip_sequences calls expected' % rel)
     a, b = flips
     same = [astu.src(x) for x in a.args[1:]] == [astu.src(x) for x in b.args[1:]] and {k.arg: astu.src(k.value) for k in a.keywords} == {k.arg: astu.src(k.value) for k in b.keywords}
-    R.check(same and astu.src(a.args[1]) == 'seq_lengths', key_of(f, 'both flips use seq_lengths, num_batch_dims, time_major'), f, 'the pre-scan and post-scan flip_sequences calls must use the same seq_lengths / num_batch_dims / time_major')
+    R.judge(len(a.args) >= 2 and len(b.args) >= 2 and set(k.arg for k in a.keywords) == set(k.arg for k in b.keywords), same and astu.src(a.args[1]) == 'seq_lengths', key_of(f, 'both flips use seq_lengths, num_batch_dims, time_major'), f, 'the pre-scan and post-scan flip_sequences calls must use the same seq_lengths / num_batch_dims / time_major')
     na, nb = c.nodes_for(a), c.nodes_for(b)
     t1 = [n for n in c.nodes if n.kind == 'if' and astu.src(n.ast) == 'reverse']
     t2 = [n for n in c.nodes if n.kind == 'if' and astu.src(n.ast) == 'reverse and keep_order']
     scan = [n for n in c.nodes if isinstance(n.stmt, ast.Assign) and astu.src(n.stmt.targets[0]) == 'scan_output']
     ok = len(t1) == 1 and len(t2) == 1 and len(scan) == 1 and all(c.edge_guarded(x, t1[0], 'T') for x in na) and all(c.edge_guarded(x, t2[0], 'T') for x in nb) and \
         all(scan[0] in c.reach([x]) for x in na) and all(x in c.reach(scan) for x in nb)
-    R.check(ok, key_of(f, 'flip before the scan under `reverse`, after it under `reverse and keep_order`'), f, 'inputs must be flipped before the scan when reverse, and outputs flipped back after it when reverse and keep_order')
+    R.judge(len(t1) == 1 and len(t2) == 1 and len(scan) == 1, ok, key_of(f, 'flip before the scan under `reverse`, after it under `reverse and keep_order`'), f, 'inputs must be flipped before the scan when reverse, and outputs flipped back after it when reverse and keep_order')
     fs = repo.func(rel, 'flip_sequences')
     t = astu.src(fs.node)
     R.check('idxs = (idxs + seq_lengths) % max_steps' in t and 'jnp.arange(max_steps - 1, -1, -1)' in t and 'jnp.take_along_axis(inputs, idxs, axis=time_axis)' in t, key_of(fs, 'reversal within the valid length'), fs,
@@ -131,7 +144,7 @@ def r4(R, repo):
     shared = ['seq_lengths', 'time_major', 'return_carry']
     ok = all(kf.get(k) == kb.get(k) and k in kf for k in shared) and kf.get('reverse') == 'False' and kb.get('reverse') == 'True' and kb.get('keep_order') == 'True' and \
         set(kb) - set(kf) <= {'keep_order'} and set(kf) <= set(kb) and astu.src(fw[0].args[0]) == astu.src(bw[0].args[0])
-    R.check(ok, key_of(bd, 'backward RNN gets the same inputs, seq_lengths, time_major; reverse=True, keep_order=True'), (bd, bw[0]),
+    R.judge(not astu.has_star_kwargs(fw[0]) and not astu.has_star_kwargs(bw[0]) and bool(fw[0].args) and bool(bw[0].args) and all(k in kf for k in shared), ok, key_of(bd, 'backward RNN gets the same inputs, seq_lengths, time_major; reverse=True, keep_order=True'), (bd, bw[0]),
             'Bidirectional must call the backward RNN with the same inputs / seq_lengths / time_major as the forward one plus reverse=True, keep_order=True (forward %s, backward %s): without seq_lengths the backward pass consumes the padding first' % (sorted(kf), sorted(kb)))
   for name in ('flip_sequences', '_select_last_carry'):
     a, b = repo.func(LR, name), repo.func(NR, name)
